@@ -10,25 +10,28 @@ def _parse(line):
     for _ in range(nacts):
         acts.append("mk_act %s %s %s" % (f[i], f[i + 1], f[i + 2]))
         i += 3
-    esc, wire, nbody = f[i] == "1", f[i + 1], int(f[i + 2])
-    i += 3
+    esc, wire, bseen, nbody = f[i] == "1", f[i + 1], f[i + 2] == "1", int(f[i + 3])
+    i += 4
     body = f[i:i + nbody]
     i += nbody
     nrec = int(f[i])
     i += 1
     recs = []
     for _ in range(nrec):
+        # pv >= 1000 (rendering recognised only loosely) is passed on as it is: the verdict is then false,
+        # which is what the runner expects for a line the driver reported as DRIFT
         recs.append("mk_rec " + " ".join(f[i:i + 7]))
         i += 7
-    return thr, m, reqno, acts, esc, wire, body, recs
+    return thr, m, reqno, acts, esc, wire, bseen, body, recs
 
 
 def c15_casesv(lines):
     rows = []
     for l in lines:
-        thr, m, reqno, acts, esc, wire, body, recs = _parse(l)
-        rows.append("verdict_ok (check_case %s (mk_req %s %s 1 %s) [%s] %s %s [%s] [%s])" % (
-            thr, m, reqno, reqno, "; ".join(acts), "true" if esc else "false", wire, "; ".join(body), "; ".join(recs)))
+        thr, m, reqno, acts, esc, wire, bseen, body, recs = _parse(l)
+        rows.append("verdict_ok (check_case %s (mk_req %s %s 1 %s) [%s] %s %s %s [%s] [%s])" % (
+            thr, m, reqno, reqno, "; ".join(acts), "true" if esc else "false", wire, "true" if bseen else "false",
+            "; ".join(body), "; ".join(recs)))
     return ("From Coq Require Import List NArith.\nImport ListNotations.\nFrom Glb Require Import Model.Relay Check.C15.\n"
             "Open Scope N_scope.\nDefinition verdicts : list bool := [\n  " + ";\n  ".join(rows) +
             "].\nEval vm_compute in verdicts.\n")
@@ -46,13 +49,17 @@ CFG = dict(
     ocaml="c15",
     race=True,
     casesv=c15_casesv,
-    rule=("every handler script of <= 3 actions over {header-map only, WriteHeader 200/404/500/599, body by Write / io.Copy(strings.Reader) / "
-          "io.Copy(file, 9 KiB)} optionally ended by a panic with one of 15 value kinds (string, error, int, struct, slice, map, nil, typed nil "
-          "pointer whose Error() dereferences, non-nil value whose Error() / String() / MarshalText() / MarshalJSON() panics, errors wrapping "
-          "http.ErrAbortHandler via %w and errors.Join, typed nil error whose Unwrap() panics) x Nano/Text/JSON handler at Info, through a real HTTP server and by direct ServeHTTP (quick: both modes on one handler "
-          "per script, rotating, one mode on the other two; thorough: both on all); "
-          "scripts of <= 1 action (+panic) at thresholds Debug/Warn/Error/Fatal; seeded random scripts of <= 9 actions with any code "
-          "200..599 incl. repeated WriteHeader; matched and unmatched routes; 1..64 requests in flight per batch; "
+    rule=("every handler script of <= 2 actions (thorough: 3) over a 15-symbol alphabet {header-map only, WriteHeader 200/404/500/599, "
+          "body by Write / io.Copy(strings.Reader) / io.Copy(file, 9 KiB), Flush(), FlushError(), Store.Error404 / Error500 / "
+          "Redirect(302) / Respond200 / RespondJson} optionally ended by a panic: all 25 value kinds behind prefixes of <= 1 action, 7 "
+          "core kinds behind every prefix (kinds: string, error, int, struct, slice, map, nil, typed nil pointer whose Error() "
+          "dereferences, non-nil values whose Error / String / MarshalText / MarshalJSON / Format / LogValue panic, errors wrapping "
+          "http.ErrAbortHandler via %w and errors.Join, typed nil error whose Unwrap() panics, genuine runtime.Error values (nil map "
+          "write, index out of range, nil dereference, divide by zero), chan, func, a 1 MiB string, invalid UTF-8 text) x Nano/Text/JSON "
+          "handler at Info, through a real HTTP server and by direct ServeHTTP (quick: both modes on one handler per script, rotating, "
+          "one mode on the other two; thorough: both on all); scripts of <= 1 action (+ core panic) at thresholds "
+          "Debug/Warn/Error/Fatal; seeded random scripts of <= 9 actions with any code 200..599 incl. repeated WriteHeader; methods "
+          "GET/POST/PUT/DELETE/PATCH/HEAD/OPTIONS; matched and unmatched routes; 1..64 requests in flight per batch; "
           "non-trivial = distinct (mode, handler, threshold, route, method, script)"),
     trusted_base=[HARNESS_TB, EXTRACT_TB,
                   "net/http response semantics as written in Model/Relay.v (first WriteHeader wins, implicit 200, no 1xx) and Go's "
@@ -60,12 +67,21 @@ CFG = dict(
                   "decoding of log records in the harness (encoding/json for JSON, a key=value tokenizer with strconv.Unquote for Text, "
                   "positional field splitting for Nano); one Write call = one record (C02)",
                   "attribution of records to requests by request id (recorded by the scripted handler through Store.GetID) or by the "
-                  "request's unique URI"],
+                  "request's unique URI",
+                  "server mode: 'a panic escaped' = the server logged 'http: panic serving <addr>' for a connection the request used; a "
+                  "client error without such a line is retried once and otherwise reported as a harness error, not as a violation"],
     assumptions=["the log handler's rendering of the panic value is total (never panics) - stated as the hypothesis of C15_relay and "
-                 "exercised with hostile values (incl. values whose Error/String/MarshalText/MarshalJSON panic; fmt.Formatter and "
-                 "slog.LogValuer panics are probed, see coverage.input_distribution.probe_*)",
+                 "exercised with hostile values (values whose Error/String/MarshalText/MarshalJSON/Format/LogValue panic, typed "
+                 "nils, runtime errors, chan/func, 1 MiB and invalid UTF-8 text); an escape is a violation",
+                 "the ERROR record is judged loosely: it must exist, carry the request's id and a non-empty 'panic' text containing the "
+                 "value's salient payload; a rendering that differs from today's is counted as DRIFT, never an alarm",
+                 "Flush/FlushError are modelled for writers that can flush (net/http's response, httptest's recorder)",
+                 "Store.Error404/Error500/Redirect/Respond200/RespondJson are read as http.Error / http.Redirect / WriteHeader+Write / "
+                 "json.Encoder over Store.W; the harness expands them into WriteHeader + body actions of the model (http.Redirect writes "
+                 "its body only for GET without a Content-Type set earlier)",
                  "status codes 200..599, set at most once for the equality 'REQ_END code = code on the wire' (a second WriteHeader is "
-                 "kept by ResponseWriter.Status but ignored by net/http: C15_example_double_header)",
+                 "kept by ResponseWriter.Status but ignored by net/http: C15_example_double_header); for such scripts neither the "
+                 "specification nor the model comparison constrains the code REQ_END carries",
                  "http.ErrAbortHandler itself is outside the property (swallowed silently: C15_abort_handler)",
                  "request ids are unique per Mux (C05); duplicates are reported as violations by the harness"],
     sig=c15_sig,
@@ -73,11 +89,11 @@ CFG = dict(
 )
 CFG["manifest"] = dict(
     text=("Proof: Coq theorems C15_relay / C15_same_id / C15_pairing / C15_above_info / C15_above_error / C15_abort_handler / "
-          "C15_needs_total_render / C15_check_accepts_model hold for every handler script, every panic value other than http.ErrAbortHandler, every request and "
+          "C15_needs_total_render / C15_flush_old_refuted / C15_check_accepts_model hold for every handler script, every panic value other than http.ErrAbortHandler, every request and "
           "every interleaving of the record streams of requests with distinct ids, under the explicit assumption that the log handler "
           "renders the panic value without panicking. Tie: the real Mux + Logger.Relay with the three handlers is driven through a real "
-          "HTTP server and direct ServeHTTP calls under the race detector with scripted handlers (15 kinds of panic values incl. wrapped "
-          "ErrAbortHandler and typed nils, io.Copy bodies, 1-64 requests in flight); the status/body the client received and the decoded "
+          "HTTP server and direct ServeHTTP calls under the race detector with scripted handlers (25 kinds of panic values incl. wrapped "
+          "ErrAbortHandler, typed nils and runtime errors; io.Copy bodies, Flush, the Store helpers; 1-64 requests in flight); the status/body the client received and the decoded "
           "records of each request are judged by the extracted specification and compared with the model."),
     note=("Trusted: Coq kernel; the reading of net/http and defer/recover in Model/Relay.v; extraction + OCaml glue (cross-checked by "
           "vm_compute sample); Go harness incl. its log decoders. The model is hand-written and tied differentially."),
